@@ -12,7 +12,7 @@
    input at any time (nothing invented, reordered or duplicated), and if the driver finished
    the items sent are exactly [ref items] and the downstream was finalized. *)
 From Coq Require Import List NArith Bool.
-From HV Require Import Push.Model Push.PBase Push.POne Push.PTwo.
+From HV Require Import Push.Model Push.PBase Push.POne Push.PTwo Push.PFlatMap.
 Import ListNotations.
 
 Theorem C12_map : forall A B (f : A -> B) fuel items rs0 fs0,
@@ -53,6 +53,22 @@ Theorem C12_filter_map_terminates : forall A B (g : A -> option B) fuel items rs
     fst (fst (drive (filter_map_push (rec_push B) g) fuel items (mkds rs0 fs0 []) [])) = Finished.
 Proof. exact filter_map_terminates. Qed.
 Print Assumptions C12_filter_map_terminates.
+
+(* flat_map.rs / flatten.rs: the iterator item buffered across a Pending answer
+   (FlatMap.buffer) is neither lost nor duplicated: delivered = flat_map g items. *)
+Theorem C12_flat_map : forall A B (g : A -> list B) fuel items rs0 fs0,
+    match drive (flat_map_push (rec_push B) g) fuel items (None, mkds rs0 fs0 []) [] with
+    | (o, _, s') => o <> Panicked /\ down_spec (flat_map g) items o (lg (snd s'))
+    end.
+Proof. exact (@flat_map_correct). Qed.
+Print Assumptions C12_flat_map.
+
+Theorem C12_flatten : forall B fuel (items : list (list B)) rs0 fs0,
+    match drive (flatten_push (rec_push B)) fuel items (None, mkds rs0 fs0 []) [] with
+    | (o, _, s') => o <> Panicked /\ down_spec (flat_map (fun l : list B => l)) items o (lg (snd s'))
+    end.
+Proof. exact flatten_correct. Qed.
+Print Assumptions C12_flatten.
 
 (* Two downstreams.  FULL statement (strict protocol toward both downstreams):
      forall ..., o <> Panicked /\ down_spec (map fst) items o (lg (fst s')) /\
@@ -119,5 +135,12 @@ Example C12_unzip_example :
   match drive (unzip_push (rec_push N) (rec_push N)) 10 [(1, 2); (3, 4)]%N
               (mkds [false] [] [], mkds [true; false] [false] []) [] with
   | (o, _, s') => o = Finished /\ sent (lg (fst s')) = [1; 3]%N /\ sent (lg (snd s')) = [2; 4]%N
+  end.
+Proof. vm_compute. auto. Qed.
+
+Example C12_flat_map_example :
+  match drive (flat_map_push (rec_push N) (fun x => [x; x + 10]%N)) 20 [1; 2]%N
+              (None, mkds [true; false; false; true; false] [false] []) [] with
+  | (o, _, s') => o = Finished /\ sent (lg (snd s')) = [1; 11; 2; 12]%N
   end.
 Proof. vm_compute. auto. Qed.
